@@ -190,7 +190,7 @@ def roundtrip(seed):
             a, p = make(root, kind)
             dd = a.datadir
             dicts = [{}, {'a': 1}, {'ü☃': {'n': [1.5, None, True, 'x\n\t"']}, 'k': [[], {}]}, {'big': 2 ** 62, 'neg': -1.5e-300}]
-            texts = ['', 'plain', 'äöü ☃   end', 'a\nb\n', 'tab\tquote" backslash\\']
+            texts = ['', 'plain', 'äöü ☃   end', 'a\nb\n', 'tab\tquote" backslash\\', 'cr\rlf\ncrlf\r\nend', '\r', 'x\r\n', 'vt\x0bff\x0cnel\x85end', '﻿bom first', 'nul\x00inside']
             for i, d in enumerate(dicts):
                 fn = 'u%d.json' % i
                 dd.write_jsondict(fn, d)
@@ -214,6 +214,12 @@ def roundtrip(seed):
                 got = open(os.path.join(p, fn), encoding='utf-8', newline='').read()
                 if got != t:
                     bad.append({'op': 'write_txt content', 'kind': kind, 'value': repr(t), 'got': repr(got)})
+                try:
+                    back = dd.read_txt(fn)
+                except Exception as e:
+                    back = 'raises %s' % type(e).__name__
+                if back != t:
+                    bad.append({'op': 'write_txt/read_txt', 'kind': kind, 'value': repr(t), 'got': repr(back)})
                 try:
                     dd.write_txt(fn, 'x')
                     bad.append({'op': 'write_txt replaced an existing file without overwrite', 'kind': kind})
@@ -258,6 +264,26 @@ def run(tier, seed):
             run.violation('C20|%s|%s|%s|%s|%s' % (b['kind'], b['method'], cls, b['form'], plain), b,
                           {'kind': 'datadir', 'case': b})
     n, bad = roundtrip(seed)
+    # the same round trips in an interpreter whose default text encoding is ASCII
+    import subprocess
+    import sys as _sys
+    from .. import tour as _tour
+    env = dict(os.environ)
+    env.update(_tour.ASCII_ENV)
+    pr = subprocess.run([_sys.executable, '-W', 'ignore', '-c',
+                         'import json, sys, locale; from harness.checks import c20; n, bad = c20.roundtrip(%d); '
+                         'print("RESULT" + json.dumps({"n": n, "bad": bad, "utf8": sys.flags.utf8_mode, "enc": locale.getencoding()}))' % seed],
+                        env=env, stdout=subprocess.PIPE, stderr=subprocess.STDOUT, text=True, timeout=600)
+    mres = [ln for ln in pr.stdout.splitlines() if ln.startswith('RESULT')]
+    if not mres:
+        raise Machinery('round trips under the ASCII locale did not run: ' + pr.stdout[-1500:])
+    cres = json.loads(mres[-1][6:])
+    if cres['utf8'] or 'UTF' in cres['enc'].upper():
+        raise Machinery('the ASCII-locale child runs with %r' % cres)
+    run.add('roundtrips_under_ascii_locale', cres['n'])
+    for b in cres['bad']:
+        b['op'] = 'locale=C:' + b['op']
+        bad.append(b)
     run.add('evaluations', n)
     for b in bad:
         run.violation('C20|roundtrip|%s' % b['op'], b, {'kind': 'roundtrip', 'case': b})
